@@ -887,6 +887,9 @@ func verifModel_google_golang_org_protobuf_encoding_protojson_UnmarshalOptions_U
 	if bv, ok := protojsonBV(m); ok {
 		return bvJSONUnmarshal(b, bv)
 	}
+	if st, ok := m.(*status.Status); ok {
+		return statusJSONUnmarshal(b, st)
+	}
 	verifOutside("protojson.Unmarshal (protobuf reflection) is outside the encoding")
 	return nil
 }
